@@ -10,4 +10,20 @@ var Properties = map[string]*PropertySpec{
 		LevelNote: "Trusted: go/ssa as semantics of the source, the engine's instruction semantics (every counterexample is replayed natively before it is reported), z3, lock stub. heap.Delete's re-sift defect is pinned by TestHeap_MaxHeap and recorded as two known findings scoped to (Delete of a present value, >=2 elements) x (no-panic, heap-order).",
 		Technique: "SSA symbolic execution + SMT (z3), inductive step from arbitrary invariant state, native replay",
 		DesignRef: "DESIGN.md §4 C03"},
+	"C05": {ID: "C05", Dirs: []string{"queue"}, Prefix: "ZvC05_",
+		Bounds: map[string]string{"Queue S1 length N": "quick 4 / thorough 6, offset 0-1, spare capacity 0 or 2, nil", "history length L": "Queue quick 4 / thorough 6; LQueue quick 5 / thorough 7 operations after NewLinked"},
+		Outside: []string{"queues longer than the bound", "histories longer than L"},
+		Stubs:  []string{"sync.RWMutex: engine lock objects", "fmt.Errorf: fresh opaque non-nil error"},
+		LevelText: "Bounded symbolic model checking of the real queue code: slice queue by one inductive step from an arbitrary items slice (symbolic 64-bit elements), linked queue by every operation sequence up to L from NewLinked with symbolic values, each step compared with a sequence model; z3 decides every assertion on every path.",
+		LevelNote: "Trusted: go/ssa semantics, engine instruction semantics (counterexamples replayed natively), z3, lock stub. Nothing claimed beyond the length bounds.",
+		Technique: "SSA symbolic execution + SMT (z3), inductive step + bounded histories, native replay",
+		DesignRef: "DESIGN.md §4 C05"},
+	"C06": {ID: "C06", Dirs: []string{"stack"}, Prefix: "ZvC06_",
+		Bounds: map[string]string{"Stack S1 length N": "quick 4 / thorough 6, offset 0-1, spare capacity 0 or 2, nil", "history length L": "Stack quick 4 / thorough 6; LStack quick 5 / thorough 7 operations after NewLinked"},
+		Outside: []string{"stacks deeper than the bound", "histories longer than L"},
+		Stubs:  []string{"sync.RWMutex: engine lock objects"},
+		LevelText: "Bounded symbolic model checking of the real stack code: slice stack by one inductive step from an arbitrary items slice (symbolic 64-bit elements), linked stack by every operation sequence up to L from NewLinked with symbolic values, each step compared with a sequence model; z3 decides every assertion on every path.",
+		LevelNote: "Trusted: go/ssa semantics, engine instruction semantics (counterexamples replayed natively), z3, lock stub. LStack.Pop's returned value for >=2 elements is pinned wrong by Example_linkedList and recorded as a known finding scoped to that clause.",
+		Technique: "SSA symbolic execution + SMT (z3), inductive step + bounded histories, native replay",
+		DesignRef: "DESIGN.md §4 C06"},
 }
